@@ -94,11 +94,11 @@ func runC03(c *eng.Ctx) {
 			what   string
 		}{
 			{pkgQueue + ".(*TaskQueue).Start", func(o types.Object) bool { return o == handler }, "Handler"},
-			{pkgOp + ".(*ShellOperator).taskHandler", func(o types.Object) bool { return o != nil && o.Name() == "taskHandleHookRun" }, "taskHandleHookRun"},
-			{pkgOp + ".(*ShellOperator).taskHandleHookRun", func(o types.Object) bool { return o != nil && o.Name() == "handleRunHook" }, "handleRunHook"},
+			{pkgOp + ".(*ShellOperator).taskHandler", func(o types.Object) bool { return o != nil && nameOf(o) == "taskHandleHookRun" }, "taskHandleHookRun"},
+			{pkgOp + ".(*ShellOperator).taskHandleHookRun", func(o types.Object) bool { return o != nil && nameOf(o) == "handleRunHook" }, "handleRunHook"},
 			{pkgOp + ".(*ShellOperator).handleRunHook", func(o types.Object) bool { return o != nil && eng.IsMethod(o, full(pkgHook), "Hook", "Run") }, "Hook.Run"},
-			{pkgHook + ".(*Hook).Run", func(o types.Object) bool { return o != nil && o.Name() == "RunAndLogLines" }, "RunAndLogLines"},
-			{pkgExec + ".(*Executor).RunAndLogLines", func(o types.Object) bool { return o != nil && o.Name() == "Run" }, "cmd.Run"},
+			{pkgHook + ".(*Hook).Run", func(o types.Object) bool { return o != nil && nameOf(o) == "RunAndLogLines" }, "RunAndLogLines"},
+			{pkgExec + ".(*Executor).RunAndLogLines", func(o types.Object) bool { return o != nil && nameOf(o) == "Run" }, "cmd.Run"},
 		}
 		for _, st := range chain {
 			f := r2.NeedFunc(st.fn)
@@ -258,14 +258,14 @@ func runC03(c *eng.Ctx) {
 			}
 			return out
 		}
-		initQ := find(func(o types.Object) bool { return o.Name() == "initAndStartHookQueues" })
+		initQ := find(func(o types.Object) bool { return nameOf(o) == "initAndStartHookQueues" })
 		meh := find(func(o types.Object) bool {
 			fn, ok := o.(*types.Func)
-			return ok && fn.Name() == "Start" && eng.RecvNamed(fn) != nil && eng.RecvNamed(fn).Obj().Name() == "ManagerEventsHandler"
+			return ok && nameOf(fn) == "Start" && eng.RecvNamed(fn) != nil && eng.RecvNamed(fn).Obj().Name() == "ManagerEventsHandler"
 		})
 		sm := find(func(o types.Object) bool {
 			fn, ok := o.(*types.Func)
-			return ok && fn.Name() == "Start" && eng.RecvNamed(fn) != nil && eng.RecvNamed(fn).Obj().Name() == "ScheduleManager"
+			return ok && nameOf(fn) == "Start" && eng.RecvNamed(fn) != nil && eng.RecvNamed(fn).Obj().Name() == "ScheduleManager"
 		})
 		ok := initQ != nil && meh != nil && sm != nil && g.OnlyVia(meh, func(n *eng.GNode) bool { return n == initQ }, nil) && g.OnlyVia(sm, func(n *eng.GNode) bool { return n == initQ }, nil)
 		r4.Check(ok, f.Key+" queues-before-producers", f.Decl.Pos(), "initAndStartHookQueues precedes ManagerEventsHandler.Start and ScheduleManager.Start", "events or ticks can be consumed before the named queues exist: their tasks are dropped ('queue is not created yet')")
@@ -497,7 +497,7 @@ func runOutsideQueueTasks(c *eng.Ctx, r11 *eng.RuleCtx) {
 				return false
 			}
 			o := eng.CalleeOf(info, cl)
-			return o != nil && o.Name() == "GetQueueName"
+			return o != nil && nameOf(o) == "GetQueueName"
 		}
 		n, okAll := 0, true
 		for _, call := range callsDeep(info, f.Decl.Body, isObj(combine)) {
